@@ -1,4 +1,5 @@
 From Verif Require Import Base.Common Model.C14.
+From Verif Require Export Proofs.C14_offset Proofs.C14_shift.
 From Coq Require Import Arith PeanoNat.
 
 Lemma NoDup_snoc {A} (l : list A) t : NoDup l -> ~ In t l -> NoDup (l ++ [t]).
